@@ -32,6 +32,7 @@ func init() {
 		"strings.ToLower":    iToLower,
 		"strings.Index":      iIndex,
 		"strings.Count":      iCount,
+		"strings.LastIndex":  iLastIndex,
 		"strings.TrimLeft":   iTrimLeft,
 		"strconv.ParseBool":  iParseBool,
 
@@ -162,6 +163,40 @@ func iIndex(m *machine, fr *frame, args []value) value {
 	t := rawApp("str.indexof", SInt, s, p, mkInt(0))
 	t.rng, t.lo, t.hi = true, -1, maxStrLen
 	return t
+}
+
+// iLastIndex: strings.LastIndex for a one-byte needle over a concatenation: the
+// last constant part containing it decides, provided no later part can contain it.
+func iLastIndex(m *machine, fr *frame, args []value) value {
+	s, sc := strArg(args[0])
+	nd, nc := strArg(args[1])
+	if sc && nc {
+		return int64(strings.LastIndex(s.S, nd.S))
+	}
+	if !nc || len(nd.S) != 1 {
+		panic(cut{"strings.LastIndex with a symbolic or multi-byte needle on symbolic string"})
+	}
+	parts := concatParts(s)
+	for i := len(parts) - 1; i >= 0; i-- {
+		p := parts[i]
+		if p.Op == "cs" {
+			if idx := strings.LastIndex(p.S, nd.S); idx >= 0 {
+				var lens []*Term
+				for _, q := range parts[:i] {
+					lens = append(lens, mkLen(q))
+				}
+				lens = append(lens, mkInt(int64(idx)))
+				return fromTerm(mkAdd(lens...))
+			}
+			continue
+		}
+		if !m.cannotContain(p, nd.S[0]) {
+			if m.branch(mkContains(p, nd)) {
+				panic(cut{"strings.LastIndex: the needle may occur inside a symbolic part (outside bound)"})
+			}
+		}
+	}
+	return int64(-1)
 }
 
 // iTrimLeft: strings.TrimLeft(s, cutset) for a concrete cutset of ASCII
